@@ -1,1 +1,368 @@
+//! C18 — client bookkeeping returns to empty.
+//!
+//! Real client + hook H5 (table sizes). 1-3 front-end tasks run histories of cycles: call, batch, notification,
+//! subscribe that is accepted / refused / answered with a malformed or duplicate subscription id and then ended
+//! by unsubscribe / drop / server-side close / lag-closure, notification handlers registered and removed. The
+//! peer acknowledges everything, in drawn order. At quiescence the four internal tables must be empty, and a
+//! later message bearing an identifier of finished work must complete nothing.
 
+use std::sync::atomic::{AtomicU64, Ordering};
+use std::sync::{Arc, Mutex};
+use std::time::Duration;
+
+use jsonrpsee_core::client::{BatchResponse, Client, ClientT, Error, IdKind, Subscription, SubscriptionClientT};
+use jsonrpsee_core::params::BatchRequestBuilder;
+use jsonrpsee_core::rpc_params;
+use jsonrpsee_core::verif;
+use serde_json::{Value, json};
+
+use super::{Parsed, Wire, err_response, method_notif, ok_response, parse_out, sub_close, sub_notif};
+use crate::rt;
+
+const P: &str = "C18";
+
+#[derive(Debug, Clone, Copy, PartialEq)]
+pub enum Cycle {
+	Call,
+	CallErr,
+	Batch(u32),
+	Notif,
+	SubUnsubscribe,
+	SubDrop,
+	SubServerClose,
+	SubLagThenDrop,
+	SubLagThenUnsubscribe,
+	SubRefused,
+	SubMalformed,
+	SubDuplicateId,
+	HandlerDrop,
+	HandlerUnsubscribe,
+	HandlerLag,
+	HandlerTwice,
+}
+
+fn draw_cycle() -> Cycle {
+	match rt::draw("cycle", 20) {
+		0 | 1 => Cycle::Call,
+		2 => Cycle::CallErr,
+		3 => Cycle::Batch(rt::draw_range("bn", 1, 3)),
+		4 => Cycle::Notif,
+		5 | 6 => Cycle::SubUnsubscribe,
+		7 | 8 => Cycle::SubDrop,
+		9 | 10 => Cycle::SubServerClose,
+		11 => Cycle::SubLagThenDrop,
+		12 => Cycle::SubLagThenUnsubscribe,
+		13 | 14 => Cycle::SubRefused,
+		15 => Cycle::SubMalformed,
+		16 => Cycle::SubDuplicateId,
+		17 => Cycle::HandlerDrop,
+		18 => match rt::draw("h", 2) {
+			0 => Cycle::HandlerUnsubscribe,
+			_ => Cycle::HandlerTwice,
+		},
+		_ => Cycle::HandlerLag,
+	}
+}
+
+fn mode_of(c: Cycle) -> &'static str {
+	match c {
+		Cycle::SubUnsubscribe | Cycle::SubDrop => "ok",
+		Cycle::SubServerClose => "close",
+		Cycle::SubLagThenDrop | Cycle::SubLagThenUnsubscribe => "flood",
+		Cycle::SubRefused => "refuse",
+		Cycle::SubMalformed => "malformed",
+		Cycle::SubDuplicateId => "dup",
+		_ => "ok",
+	}
+}
+
+pub async fn scenario() {
+	let n_tasks = rt::draw_range("n_tasks", 1, 3);
+	let buf = *rt::pick("buf", &[2usize, 1, 4]);
+	let id_str = rt::chance("id_kind", 1, 3);
+	let repeat = if rt::param("long").is_some() { 40 } else { 1 };
+	let mut plans: Vec<Vec<Cycle>> = Vec::new();
+	for _ in 0..n_tasks {
+		let k = rt::draw_range("n_cycles", 1, 8);
+		let base: Vec<Cycle> = (0..k).map(|_| draw_cycle()).collect();
+		let mut v = Vec::new();
+		for _ in 0..repeat {
+			v.extend(base.iter().copied());
+		}
+		plans.push(v);
+	}
+	rt::event("plan", format!("tasks={plans:?} buf={buf} id_str={id_str}"));
+	let (wire, tx, rx) = Wire::new();
+	let client = Arc::new(
+		Client::builder()
+			.max_buffer_capacity_per_subscription(buf)
+			.id_format(if id_str { IdKind::String } else { IdKind::Number })
+			.request_timeout(Duration::from_secs(60))
+			.build_with_tokio(tx, rx),
+	);
+	let finished_ids: Arc<Mutex<(Vec<Value>, Vec<Value>)>> = Arc::default(); // (request ids answered, sub ids ended)
+
+	// ---------------- peer: acknowledges everything ----------------
+	let peer = {
+		let (wire, finished_ids) = (wire.clone(), finished_ids.clone());
+		rt::spawn("peer", async move {
+			let mut pending: Vec<(Value, String, Value)> = Vec::new();
+			let mut next_sub = 800u64;
+			let mut live: Vec<Value> = Vec::new();
+			let mut val = 50_000u64;
+			let take = |text: &str, pending: &mut Vec<(Value, String, Value)>| match parse_out(text) {
+				Parsed::Call { id, method, params } => pending.push((id, method, params)),
+				Parsed::Batch(es) => {
+					let ids: Vec<Value> = es.iter().filter_map(|e| if let Parsed::Call { id, .. } = e { Some(id.clone()) } else { None }).collect();
+					pending.push((json!(ids), "__batch".into(), Value::Null));
+				}
+				_ => {}
+			};
+			loop {
+				while let Some(m) = wire.try_next_out() {
+					take(&m.text, &mut pending);
+				}
+				if pending.is_empty() {
+					match wire.next_out().await {
+						Some(m) => take(&m.text, &mut pending),
+						None => break,
+					}
+					continue;
+				}
+				match rt::draw("peer-act", 6) {
+					0 => tokio::time::sleep(Duration::from_millis(rt::draw_range("lat", 1, 20) as u64)).await,
+					1 => rt::yield_n(1).await,
+					_ => {
+						let k = rt::draw("which", pending.len() as u32) as usize;
+						let (id, method, params) = pending.remove(k);
+						val += 1;
+						match method.as_str() {
+							"__batch" => {
+								let ids = id.as_array().cloned().unwrap_or_default();
+								let parts: Vec<String> = ids.iter().rev().map(|i| ok_response(i, &json!(val))).collect();
+								wire.push_text(format!("[{}]", parts.join(",")));
+								finished_ids.lock().unwrap().0.extend(ids);
+							}
+							"sub" => {
+								let mode = params.as_array().and_then(|a| a.get(1)).and_then(|m| m.as_str()).unwrap_or("ok").to_string();
+								match mode.as_str() {
+									"refuse" => {
+										wire.push_text(err_response(&id, -32000, "refused", None));
+									}
+									"malformed" => {
+										wire.push_text(ok_response(&id, &json!({"not": "an id"})));
+									}
+									"dup" if !live.is_empty() => {
+										let sid = live[0].clone();
+										wire.push_text(ok_response(&id, &sid));
+									}
+									_ => {
+										next_sub += 1;
+										let sid = if next_sub % 2 == 0 { json!(next_sub) } else { json!(format!("s{next_sub}")) };
+										live.push(sid.clone());
+										wire.push_text(ok_response(&id, &sid));
+										match mode.as_str() {
+											"close" => {
+												for _ in 0..rt::draw("items", 3) {
+													val += 1;
+													wire.push_text(sub_notif("n", &sid, &json!(val)));
+												}
+												wire.push_text(sub_close("n", &sid, &json!("bye")));
+												live.retain(|s| s != &sid);
+												finished_ids.lock().unwrap().1.push(sid);
+											}
+											"flood" => {
+												for _ in 0..6 {
+													val += 1;
+													wire.push_text(sub_notif("n", &sid, &json!(val)));
+												}
+											}
+											_ => {
+												for _ in 0..rt::draw("items", 3) {
+													val += 1;
+													wire.push_text(sub_notif("n", &sid, &json!(val)));
+												}
+											}
+										}
+									}
+								}
+								finished_ids.lock().unwrap().0.push(id);
+							}
+							"unsub" => {
+								if let Some(sid) = params.as_array().and_then(|a| a.first()) {
+									live.retain(|s| s != sid);
+									finished_ids.lock().unwrap().1.push(sid.clone());
+								}
+								wire.push_text(ok_response(&id, &json!(true)));
+								finished_ids.lock().unwrap().0.push(id);
+							}
+							"mflood" => {
+								wire.push_text(ok_response(&id, &json!(1)));
+								for _ in 0..6 {
+									val += 1;
+									wire.push_text(method_notif("mn", Some(&json!(val))));
+								}
+								finished_ids.lock().unwrap().0.push(id);
+							}
+							"fail" => {
+								wire.push_text(err_response(&id, -32001, "nope", Some(&json!([1, 2]))));
+								finished_ids.lock().unwrap().0.push(id);
+							}
+							_ => {
+								wire.push_text(ok_response(&id, &json!(val)));
+								finished_ids.lock().unwrap().0.push(id);
+							}
+						}
+					}
+				}
+			}
+		})
+	};
+
+	// ---------------- front-ends ----------------
+	let nonce = Arc::new(AtomicU64::new(1));
+	let handler_lock = Arc::new(tokio::sync::Mutex::new(()));
+	let mut hs = Vec::new();
+	for (ti, plan) in plans.into_iter().enumerate() {
+		let (client, nonce, handler_lock) = (client.clone(), nonce.clone(), handler_lock.clone());
+		hs.push(rt::spawn("front", async move {
+			for c in plan {
+				let n = nonce.fetch_add(1, Ordering::Relaxed);
+				rt::event("cycle", format!("t{ti} {c:?} nonce={n}"));
+				match c {
+					Cycle::Call => {
+						let _: Result<Value, Error> = client.request("m", rpc_params![n]).await;
+					}
+					Cycle::CallErr => {
+						let _: Result<Value, Error> = client.request("fail", rpc_params![n]).await;
+					}
+					Cycle::Batch(k) => {
+						let mut b = BatchRequestBuilder::new();
+						for j in 0..k {
+							b.insert("m", rpc_params![n * 100 + j as u64]).unwrap();
+						}
+						let _: Result<BatchResponse<Value>, Error> = client.batch_request(b).await;
+					}
+					Cycle::Notif => {
+						let _ = client.notification("note", rpc_params![n]).await;
+					}
+					Cycle::SubUnsubscribe | Cycle::SubDrop | Cycle::SubServerClose | Cycle::SubLagThenDrop | Cycle::SubLagThenUnsubscribe | Cycle::SubRefused | Cycle::SubMalformed | Cycle::SubDuplicateId => {
+						let r: Result<Subscription<Value>, Error> = client.subscribe("sub", rpc_params![n, mode_of(c)], "unsub").await;
+						match r {
+							Ok(mut sub) => match c {
+								Cycle::SubUnsubscribe => {
+									if rt::chance("read1", 1, 2) {
+										let _ = tokio::time::timeout(Duration::from_millis(50), sub.next()).await;
+									}
+									let _ = sub.unsubscribe().await;
+								}
+								Cycle::SubDrop | Cycle::SubDuplicateId => {
+									if rt::chance("read1", 1, 2) {
+										let _ = tokio::time::timeout(Duration::from_millis(50), sub.next()).await;
+									}
+									drop(sub);
+								}
+								Cycle::SubServerClose => {
+									// read until the server's close notification ends the stream (bounded)
+									let _ = tokio::time::timeout(Duration::from_secs(5), async { while sub.next().await.is_some() {} }).await;
+									drop(sub);
+								}
+								Cycle::SubLagThenDrop | Cycle::SubLagThenUnsubscribe => {
+									// do not read while the peer floods
+									tokio::time::sleep(Duration::from_millis(200)).await;
+									if c == Cycle::SubLagThenUnsubscribe {
+										let _ = sub.unsubscribe().await;
+									} else {
+										let _ = tokio::time::timeout(Duration::from_secs(5), async { while sub.next().await.is_some() {} }).await;
+										drop(sub);
+									}
+								}
+								_ => drop(sub),
+							},
+							Err(e) => {
+								rt::event("subscribe-err", format!("{e:?}"));
+							}
+						}
+					}
+					Cycle::HandlerDrop | Cycle::HandlerUnsubscribe | Cycle::HandlerLag | Cycle::HandlerTwice => {
+						// one handler for "mn" at a time
+						let _g = handler_lock.lock().await;
+						let r: Result<Subscription<Value>, Error> = client.subscribe_to_method("mn").await;
+						if let Ok(mut h) = r {
+							match c {
+								Cycle::HandlerDrop => drop(h),
+								Cycle::HandlerUnsubscribe => {
+									let _ = h.unsubscribe().await;
+								}
+								Cycle::HandlerTwice => {
+									let second: Result<Subscription<Value>, Error> = client.subscribe_to_method("mn").await;
+									if second.is_ok() {
+										rt::violate(P, "handler-registered-twice", "mn", "subscribe_to_method succeeded twice for the same method while the first handler was alive");
+									}
+									drop(h);
+								}
+								_ => {
+									let _: Result<Value, Error> = client.request("mflood", rpc_params![n]).await;
+									tokio::time::sleep(Duration::from_millis(100)).await;
+									let _ = tokio::time::timeout(Duration::from_secs(5), async { while h.next().await.is_some() {} }).await;
+									drop(h);
+								}
+							}
+							// let the unregistration reach the background task before another handler is registered
+							tokio::time::sleep(Duration::from_millis(50)).await;
+						}
+					}
+				}
+			}
+		}));
+	}
+	for h in hs {
+		let _ = h.await;
+	}
+	// every acknowledgement has been delivered and processed by now?
+	rt::quiesce().await;
+	let connected = client.is_connected();
+	let tables = verif::client_tables();
+	rt::event("tables", format!("{tables:?} connected={connected}"));
+	let names = ["requests", "subscriptions", "batches", "notification_handlers"];
+	if connected {
+		match tables.first() {
+			Some(Some(t)) => {
+				for (i, n) in t.iter().enumerate() {
+					if *n != 0 {
+						rt::violate(P, "residue", names[i].to_string(), format!("all work is finished and acknowledged, but the client's `{}` table still holds {} entr{} (tables {:?})", names[i], n, if *n == 1 { "y" } else { "ies" }, t));
+					}
+				}
+				rt::probe("nontrivial");
+			}
+			other => {
+				rt::event("tables-unavailable", format!("{other:?}"));
+			}
+		}
+		// a later message bearing an identifier of finished work completes nothing
+		let (req_ids, sub_ids) = finished_ids.lock().unwrap().clone();
+		if let Some(id) = req_ids.last() {
+			if rt::chance("late_msg", 1, 2) {
+				match sub_ids.last() {
+					Some(sid) if rt::chance("late_sub", 1, 2) => {
+						wire.push_text(sub_notif("n", sid, &json!(1)));
+					}
+					_ => {
+						wire.push_text(ok_response(id, &json!(123456)));
+					}
+				}
+				rt::quiesce().await;
+				if let Some(Some(t)) = verif::client_tables().first() {
+					if t.iter().any(|n| *n != 0) {
+						rt::violate(P, "late-message-created-state", "tables", format!("a message bearing an identifier of finished work left state behind: {t:?}"));
+					}
+				}
+				rt::probe("late_message");
+			}
+		}
+	} else {
+		rt::probe("disconnected_before_check");
+	}
+	drop(client);
+	let _ = tokio::time::timeout(Duration::from_secs(5), peer).await;
+}
